@@ -37,6 +37,7 @@ EXPLANATION = (
     "under a test reading that same operand against the relocated address. Controller-side allocation guards as in C13.G and the occupied-slot test that holds back an arriving pair while its virtual id is still allocated (as in C12.B)."
     ' C09.I: an explicit virtual id given to a new handle is provably unused. C09.Z: no truthiness test on an int-typed value (qubit id 0, physical address 0).'
     ' C09.M executes get_new_qubit_address abstractly for seven sets of handle ids, and again after a live handle was renamed to the id just handed out (what NV relocation does).'
+    " C09.I / C09.F execute Qubit.__init__ and the active setter against the repository's own Builder and MemoryManager objects for six combinations of live ids and explicit / automatic id."
 )
 LEVEL_TEXT = (
     "Static analysis, partial: the structural agreement of SDK-side handle state with emitted qalloc/qfree at every emission and "
